@@ -219,6 +219,7 @@ def run(ctx, rep) -> None:
                "src/stabilize/handlers", 0)
     _r2_static(ctx, rep)
     _r3_recovery(ctx, rep, res)
+    _r3_planned_evidence(ctx, rep)
     _r4_zombie(ctx, rep, res)
     _r5_queue(ctx, rep)
 
@@ -333,6 +334,32 @@ def _r3_recovery(ctx, rep, res) -> None:
     rep.check(wf_ok, "C01.R3", "recovery of a not yet started workflow", "NOT_STARTED workflow with no stage to re-queue gets StartWorkflow", fi.file, fi.node.lineno)
 
 
+def _r3_planned_evidence(ctx, rep) -> None:
+    """Recovery may resume TASKS of a RUNNING stage only on evidence that the stage was durably PLANNED. Evidence that the
+    claim commit already makes durable (status RUNNING, start_time) proves nothing about planning."""
+    prog = ctx.prog
+    rec = prog.func("stabilize.recovery", "WorkflowRecovery._recover_workflow")
+    branch = [n for n in ast.walk(rec.node) if isinstance(n, ast.If) and any(isinstance(c, ast.Call) and getattr(c.func, "id", "") == "StartTask" for s_ in n.body for c in ast.walk(s_))
+              and "not_started_tasks" in norm(n.test)]
+    if not branch:
+        return
+    cond = norm(branch[0].test)
+    evidence = [a for a in ("stage.start_time",) if a in cond]
+    sir = prog.func("stabilize.handlers.start_stage.handler", "StartStageHandler._start_if_ready")
+    claim_with = [n for n in ast.walk(sir.node) if isinstance(n, ast.With) and any("expected_phase" in norm(s_) for s_ in n.body)]
+    plan_call = [c for c in ast.walk(sir.node) if isinstance(c, ast.Call) and norm(c.func) == "self._plan_stage"]
+    if not claim_with or not plan_call:
+        raise AnalysisError("claim transaction / _plan_stage call not found in _start_if_ready")
+    for ev_attr in evidence:
+        writes = [n for n in ast.walk(sir.node) if isinstance(n, ast.Assign) and norm(n.targets[0]) == ev_attr and norm(n.value) != "None"]
+        before_claim = [w for w in writes if w.lineno < claim_with[0].lineno]
+        ok = not before_claim
+        rep.check(ok, "C01.R3", f"recovery's evidence `{ev_attr}` is written by the plan commit only",
+                  f"recovery pushes StartTask when `{cond}`; `{ev_attr}` is assigned at line {before_claim[0].lineno if before_claim else '-'} BEFORE the claim transaction, so the claim-only state of a stage with predefined tasks "
+                  "(RUNNING, start_time set, tasks NOT_STARTED) already satisfies it: after a kill between claim and plan the first task is started on an unplanned stage (no merged upstream context)" if not ok else "ok",
+                  sir.file, before_claim[0].lineno if before_claim else sir.node.lineno, disc=f"evidence:{ev_attr}")
+
+
 def _r4_zombie(ctx, rep, res) -> None:
     """Every claim CAS expects the status the stage was read with; the zombie (RUNNING) claim exists."""
     r = res["StartStageHandler"]
@@ -358,6 +385,12 @@ def _r4_zombie(ctx, rep, res) -> None:
                       site[0], site[1], disc=f"{exp}:{','.join(sorted(read))}")
     rep.check("RUNNING" in expected_vals, "C01.R4", "zombie re-plan path", "a RUNNING stage without tasks and synthetic stages is re-claimed (expected_phase=RUNNING) and planned" if "RUNNING" in expected_vals
               else "no path claims a RUNNING stage: a stage whose claimer crashed before planning is wedged forever", "src/stabilize/handlers/start_stage/handler.py", 0, disc="zombie")
+    from .startstage_probe import join_fired_order
+
+    n_f, bad = join_fired_order(ctx)
+    rep.check(bad is None and n_f > 0, "C01.R4", "the claim commit does not make the join look fired",
+              f"{n_f} _join_fired writes, all after the committed claim" if bad is None else "_join_fired becomes durable with the claim commit: after a kill between claim and plan every StartStage (redelivered or pushed by recovery) is answered NOT_READY "
+              "('already fired'), so the zombie re-plan is unreachable and the stage ends TERMINAL", (bad or ("src/stabilize/handlers/start_stage/handler.py", 0))[0], (bad or ("", 0))[1], disc="join-fired-before-claim")
     rep.check("NOT_STARTED" in expected_vals, "C01.R4", "regular claim path", "NOT_STARTED claim present", "src/stabilize/handlers/start_stage/handler.py", 0, disc="regular")
 
 
